@@ -423,7 +423,6 @@ fn is_ident(s: &str) -> bool {
 fn bracket_ok(b: &Bracket) -> bool {
     gap_ok(&b.pre)
         && gap_ok(&b.post)
-        && !b.items.is_empty()
         && b.items.iter().all(|i| gap_ok(&i.gap) && is_ident(&i.name))
         && b.items.iter().skip(1).all(|i| !i.gap.is_empty())
 }
